@@ -37,6 +37,9 @@ BEHAVIOURS = {
     "fail-pending-postfix": "{ int32_t i = 0; RdV = i++ + no_such_function(RtV); }",
     "fail-pending-stmtexpr": "{ RdV = ({ RxV = RsV; RxV; }) + no_such_function(RtV); }",
     "fail-pending-imm": "{ RdV = siV + no_such_function(uiV); }",
+    # several value-producing operations consumed by one statement (their order is part of the meaning)
+    "tmp-three": "{ int32_t i = 0; RdV = clz32(RsV) + i++ + clo32(RtV); }",
+    "tmp-sat-chain": "{ RdV = (clz32(RsV) > 3) ? ({ set_usr_field(bundle, HEX_REG_FIELD_USR_OVF, 1); clo32(RtV); }) : fbrev(RsV); }",
 }
 SUB = ("c14_twice", "int32_t", ["int32_t x"], "{ int32_t t = x; t++; return t + x; }")
 SUBCALL = "{ RdV = c14_twice(RsV) + c14_twice(RtV); }"
@@ -54,6 +57,58 @@ def alphabet(tier):
     for inst in ("A", "B"):
         evs.append(hist.Event("subcall", inst, "V14_subcall", [SUBCALL], sub=SUB))
     return evs
+
+
+# The state digest drops the never-reset counter of value-producing operations (it only numbers the
+# temporaries, and observations are compared modulo a renaming of temporaries).  That abstraction is
+# checked against the code instead of assumed: the counter is driven to every value of COUNTS by real
+# compile calls (a statement with exactly one such operation), and every event of the alphabet must still
+# give its fresh-state observation from there.  COUNTS brackets the points where the decimal length of a
+# temporary's number changes.
+PUMP = "{ RdV = clz32(RsV); }"
+COUNTS_QUICK = list(range(0, 13))
+COUNTS_THOROUGH = list(range(0, 25)) + list(range(95, 104))
+
+
+def _counter(inst):
+    return hist._CTX["comp"][inst].transformer.il_ops_holder.hybrid_op_count
+
+
+def _pumped(k, ev, failing):
+    """k pump events on ev's instance (every `failing`-th one followed by a failing compilation), then ev."""
+    pump = hist.Event("stmt", ev.inst, "V14_pump", [PUMP])
+    fail = hist.Event("stmt", ev.inst, "V14_pump_fail", [BEHAVIOURS["fail-pending-call"]])
+    n = 0
+    while _counter(ev.inst) < k:
+        hist.do_event(pump if not (failing and n % 2) else fail)
+        n += 1
+        if n > 4 * k + 8:
+            raise core.HarnessError("the pump does not advance the counter")
+    c = _counter(ev.inst)
+    return c, hist.do_event(ev)
+
+
+def _pump_work(item):
+    k, ev, failing = item
+    r = core.fresh_call(_pumped, k, ev, failing)
+    if r[0] != "ok":
+        raise core.HarnessError("pump history failed: %s" % (r[1:],))
+    return r[1]
+
+
+def counter_sweep(ctx, alpha, base, counts):
+    items = [(k, ev, f) for k in counts for ev in alpha for f in (False, True) if not (f and k == 0)]
+    res = core.pmap(_pump_work, items, seed=ctx.seed, chunk=8)
+    reached = set()
+    n = 0
+    for (k, ev, f), (c, obs) in zip(items, res):
+        n += 1
+        reached.add(c)
+        bad = same(base[ev.key()], obs)
+        if bad:
+            ctx.report({"history": ["%d x stmt@%s(pump%s)" % (k, ev.inst, "+failures" if f else "")], "counter_before_event": c, "event": ev.label(), "behaviour": ev.texts[0], "why": bad, "pump": PUMP},
+                       None, what="with the temporaries counter at %d the event %s gives a different result: %s" % (c, ev.label(), bad))
+    return {"counter_sweep_transitions": n, "counter_values_reached": sorted(reached)}
 
 
 def same(o1, o2):
@@ -75,7 +130,7 @@ def run(ctx):
     comps = {"A": drive.get_compiler("stmt"), "B": drive.get_compiler("stmt", fresh=True)}
     alpha = alphabet(ctx.tier)
     pc = drive.ParseCache("c14")
-    texts = [t for ev in alpha for t in ev.texts] + [SUB[3]]
+    texts = [t for ev in alpha for t in ev.texts] + [SUB[3], PUMP]
     pc.ensure(texts, seed=ctx.seed)
     pc.save()
     hist.setup(comps, pc, parsed_insns={ev.name: ev.texts for ev in alpha if ev.kind == "insn"})
@@ -110,13 +165,15 @@ def run(ctx):
     extra = {}
     if ctx.tier == "thorough":
         extra = corpus_pairs(ctx, comps, drop)
+        hist.setup(comps, pc, parsed_insns={ev.name: ev.texts for ev in alpha if ev.kind == "insn"})
+    extra.update(counter_sweep(ctx, alpha, base, COUNTS_QUICK if ctx.tier == "quick" else COUNTS_THOROUGH))
     ctx.sample({"history": [alpha[0].label(), alpha[5].label()], "event": alpha[2].label(), "invariant": "observation equals the fresh-process observation of the same behaviour"})
     ctx.sample({"events": [e.label() for e in alpha[:6]]})
     return ctx.finish(
         dict(
             states=res["states"],
-            transitions=res["transitions"] + extra.get("corpus_pair_transitions", 0),
-            traces_validated_against_impl=res["transitions"] + extra.get("corpus_pair_transitions", 0),
+            transitions=res["transitions"] + extra.get("corpus_pair_transitions", 0) + extra.get("counter_sweep_transitions", 0),
+            traces_validated_against_impl=res["transitions"] + extra.get("corpus_pair_transitions", 0) + extra.get("counter_sweep_transitions", 0),
             depth_completed=len(res["levels"]),
             fixpoint_reached=(res["frontier_left"] == 0),
             levels=res["levels"],
@@ -160,11 +217,26 @@ def replay(ctx, path):
     alpha = alphabet("thorough")
     by = {e.label(): e for e in alpha}
     pc = drive.ParseCache("c14")
-    pc.ensure([t for ev in alpha for t in ev.texts] + [SUB[3]])
+    pc.ensure([t for ev in alpha for t in ev.texts] + [SUB[3], PUMP])
     hist.setup(comps, pc, parsed_insns={ev.name: ev.texts for ev in alpha if ev.kind == "insn"})
     drop = ("hybrid_op_count", "missing_fcns")
     if case["event"] not in by:
         print("event not in the alphabet (corpus pair): re-run the thorough tier")
+        return 0
+    if "counter_before_event" in case:
+        ev = by[case["event"]]
+        k = case["counter_before_event"]
+        failing = "+failures" in case["history"][0]
+        o1 = _pump_work((k, ev, failing))
+        o2 = _pump_work((k, ev, failing))
+        if o1 != o2:
+            raise core.HarnessError("replaying the same history twice gave different observations")
+        fresh = hist.run_history([ev], drop)[0][0]
+        bad = same(fresh, o1[1])
+        print("counter driven to %d by real compilations, then %s: %s" % (o1[0], case["event"], bad or "equal to the fresh-state observation"))
+        if bad:
+            print("VIOLATION property=%s replay=%s" % (ctx.pid, path))
+            return 1
         return 0
     h = [by[x] for x in case["history"]]
     ev = by[case["event"]]
